@@ -366,6 +366,44 @@ func c15Live(res *fw.CaseResult, rng *rand.Rand, c fw.Case, env *fw.Env) {
 			res.Violate("quota", "C15:concurrent-create-quota", fmt.Sprintf("18 concurrent creations under a quota of %d collections: %d reported success, %d were refused, the user now lists %d collections", quotaCols, okN.Load(), refusedN.Load(), len(list)), nil)
 		}
 	}
+	// ---- the boundary after deletions: a user at the quota deletes a collection - the request is
+	// repeated, as a retried or doubled call would be - and creates again: exactly one more creation
+	// is accepted, whatever the repeated deletion answered
+	{
+		user3 := "dave"
+		names := []string{}
+		for i := 0; i < quotaCols; i++ {
+			col := mkCol(fmt.Sprintf("d%d", i))
+			col.UserId = user3
+			if err := node.CreateCollection(col); err == nil {
+				names = append(names, col.Id)
+			}
+		}
+		if len(names) == quotaCols {
+			victim := mkCol(names[0])
+			victim.UserId = user3
+			for k := 0; k < 2+quotaCols%2; k++ {
+				node.DeleteCollection(victim)
+			}
+			okN := 0
+			var lastErr error
+			for i := 0; i < 3; i++ {
+				col := mkCol(fmt.Sprintf("e%d", i))
+				col.UserId = user3
+				if err := node.CreateCollection(col); err == nil {
+					okN++
+				} else {
+					lastErr = err
+				}
+			}
+			list, _ := node.ListCollections(user3)
+			res.Eval(true, "create-after-repeated-delete", quotaCols)
+			res.Stat("create_after_repeated_delete_scenarios", 1)
+			if okN != 1 || len(list) != quotaCols || !errors.Is(lastErr, cluster.ErrQuotaReached) {
+				res.Violate("quota", "C15:create-after-repeated-delete", fmt.Sprintf("a user with %d of %d collections deleted one (the deletion was issued several times) and tried 3 creations: %d were accepted, the user now lists %d collections, the last refusal was %v", quotaCols, quotaCols, okN, len(list), lastErr), nil)
+			}
+		}
+	}
 	if len(created) == 0 {
 		return
 	}
